@@ -1118,6 +1118,56 @@ func ruleIndexAdeq(r *Run) {
 				boundBy[v][d] = true
 			}
 		})
+		// …and comparisons made for this function by a validating helper of the same table
+		// (t.firstRowShorterThan(position)): the helper compares its parameter with the cell count
+		// of every row in a loop over t.Rows
+		allInstrs(fn, func(in ssa.Instruction) {
+			c, ok := in.(*ssa.Call)
+			if !ok {
+				return
+			}
+			cal := staticCallee(c)
+			if cal == nil || cal == fn || !p.inModule(cal) || cal.Signature.Recv() == nil || !typeIs(cal.Signature.Recv().Type(), pkgDoc, "Table") || len(cal.Blocks) == 0 {
+				return
+			}
+			if len(c.Call.Args) == 0 || stripLoads(c.Call.Args[0]) != ssa.Value(fn.Params[0]) {
+				return
+			}
+			cloops := naturalLoops(cal)
+			allInstrs(cal, func(in2 ssa.Instruction) {
+				bo, ok := in2.(*ssa.BinOp)
+				if !ok {
+					return
+				}
+				switch bo.Op {
+				case token.LSS, token.LEQ, token.GTR, token.GEQ:
+				default:
+					return
+				}
+				for _, pair := range [][2]ssa.Value{{bo.X, bo.Y}, {bo.Y, bo.X}} {
+					lc, ok := baseVar(pair[1]).(*ssa.Call)
+					if !ok {
+						continue
+					}
+					if b, ok := lc.Call.Value.(*ssa.Builtin); !ok || b.Name() != "len" {
+						continue
+					}
+					dsg, ok := rowDesignator(p, lc.Call.Args[0], cloops)
+					if !ok || !strings.HasPrefix(dsg, "∀loop:") {
+						continue
+					}
+					pi := paramIndex(cal, baseVar(pair[0]))
+					if pi < 0 || pi >= len(c.Call.Args) {
+						continue
+					}
+					v := baseVar(c.Call.Args[pi])
+					if boundBy[v] == nil {
+						boundBy[v] = map[string]bool{}
+					}
+					boundBy[v]["∀loop:"+cal.Name()] = true
+				}
+			})
+		})
 		// uses
 		seen := map[string]bool{}
 		allInstrs(fn, func(in ssa.Instruction) {
@@ -1617,6 +1667,7 @@ type dbProver struct {
 	isLenOf func(ssa.Value) bool
 	entry   map[*ssa.Function][]dbEdge
 	busy    map[*ssa.Function]bool
+	depth   int
 }
 
 func (d *dbProver) node(v ssa.Value) (string, int64, bool) {
@@ -1632,7 +1683,236 @@ func (d *dbProver) node(v ssa.Value) (string, int64, bool) {
 	if bt, ok := b.Type().Underlying().(*types.Basic); !ok || bt.Info()&types.IsInteger == 0 {
 		return "", 0, false
 	}
+	// an integer carried in a struct value: a field of a by-value struct parameter is a node of its
+	// own; a field of a local struct built by a composite literal is the value stored there
+	if d.depth < 4 {
+		switch x := b.(type) {
+		case *ssa.Field:
+			if par, ok := x.X.(*ssa.Parameter); ok {
+				return fmt.Sprintf("%p.%d", par, x.Field), off, true
+			}
+		case *ssa.UnOp:
+			if fa, ok := x.X.(*ssa.FieldAddr); ok && x.Op == token.MUL {
+				if al, ok := fa.X.(*ssa.Alloc); ok {
+					if key, o2, ok := d.structFieldNode(al, fa.Field); ok {
+						return key, off + o2, true
+					}
+				}
+			}
+		}
+	}
 	return fmt.Sprintf("%p", b), off, true
+}
+
+// structFieldNode: the node of field fi of the local struct variable al — "<param>.<fi>" when the
+// variable holds a by-value parameter, the node of the stored value when it was built field by
+// field exactly once (a composite literal).
+func (d *dbProver) structFieldNode(al *ssa.Alloc, fi int) (string, int64, bool) {
+	if al.Referrers() == nil {
+		return "", 0, false
+	}
+	var whole []ssa.Value
+	var fieldVals []ssa.Value
+	for _, u := range *al.Referrers() {
+		switch y := u.(type) {
+		case *ssa.Store:
+			if y.Addr == ssa.Value(al) {
+				whole = append(whole, y.Val)
+			}
+		case *ssa.FieldAddr:
+			if y.Field != fi || y.Referrers() == nil {
+				continue
+			}
+			for _, u2 := range *y.Referrers() {
+				if st, ok := u2.(*ssa.Store); ok && st.Addr == ssa.Value(y) {
+					fieldVals = append(fieldVals, st.Val)
+				}
+			}
+		}
+	}
+	if len(whole) == 1 && len(fieldVals) == 0 {
+		if par, ok := whole[0].(*ssa.Parameter); ok {
+			return fmt.Sprintf("%p.%d", par, fi), 0, true
+		}
+		return "", 0, false
+	}
+	if len(whole) == 0 && len(fieldVals) == 1 {
+		d.depth++
+		defer func() { d.depth-- }()
+		return d.node(fieldVals[0])
+	}
+	return "", 0, false
+}
+
+// argFieldNode: the node, in the caller, of integer field fi of the struct value handed over as arg.
+func (d *dbProver) argFieldNode(arg ssa.Value, fi int) (string, int64, bool) {
+	switch x := arg.(type) {
+	case *ssa.Parameter:
+		return fmt.Sprintf("%p.%d", x, fi), 0, true
+	case *ssa.UnOp:
+		if al, ok := x.X.(*ssa.Alloc); ok && x.Op == token.MUL {
+			return d.structFieldNode(al, fi)
+		}
+	}
+	return "", 0, false
+}
+
+// structIntFields: indices of the integer fields of a struct type (nil if t is no struct).
+func structIntFields(t types.Type) []int {
+	st, ok := t.Underlying().(*types.Struct)
+	if !ok {
+		return nil
+	}
+	var out []int
+	for i := 0; i < st.NumFields(); i++ {
+		if b, ok := st.Field(i).Type().Underlying().(*types.Basic); ok && b.Info()&types.IsInteger != 0 {
+			out = append(out, i)
+		}
+	}
+	return out
+}
+
+// cmpEdges: the constraints of comparison bo being true (taken) or false.
+func (d *dbProver) cmpEdges(bo *ssa.BinOp, taken bool) []dbEdge {
+	xn, xo, ok1 := d.node(bo.X)
+	yn, yo, ok2 := d.node(bo.Y)
+	if !ok1 || !ok2 {
+		return nil
+	}
+	op := bo.Op
+	if !taken {
+		switch op {
+		case token.LSS:
+			op = token.GEQ
+		case token.LEQ:
+			op = token.GTR
+		case token.GTR:
+			op = token.LEQ
+		case token.GEQ:
+			op = token.LSS
+		case token.NEQ:
+			op = token.EQL
+		default:
+			return nil
+		}
+	}
+	switch op {
+	case token.LSS:
+		return []dbEdge{{yn, xn, yo - xo - 1}}
+	case token.LEQ:
+		return []dbEdge{{yn, xn, yo - xo}}
+	case token.GTR:
+		return []dbEdge{{xn, yn, xo - yo - 1}}
+	case token.GEQ:
+		return []dbEdge{{xn, yn, xo - yo}}
+	case token.EQL:
+		return []dbEdge{{yn, xn, yo - xo}, {xn, yn, xo - yo}}
+	}
+	return nil
+}
+
+// predFacts: what holds in the caller when the bool-valued module function called by c answers
+// true — for the shapes `return a && b && c` and `return cmp`: the comparisons on the only path to a
+// true result, with the callee's parameters (and integer fields of its struct parameters)
+// replaced by the caller's argument nodes.
+func (d *dbProver) predFacts(c *ssa.Call) []dbEdge {
+	cal := staticCallee(c)
+	if cal == nil || !d.p.inModule(cal) || len(cal.Blocks) == 0 || d.busy[cal] || cal.Signature.Results().Len() != 1 {
+		return nil
+	}
+	if b, ok := cal.Signature.Results().At(0).Type().Underlying().(*types.Basic); !ok || b.Kind() != types.Bool {
+		return nil
+	}
+	rets := returnsOf(cal)
+	if len(rets) != 1 {
+		return nil
+	}
+	d.busy[cal] = true
+	defer func() { d.busy[cal] = false }()
+	var inner []dbEdge
+	switch v := rets[0].Results[0].(type) {
+	case *ssa.BinOp:
+		inner = append(d.branchOnly(cal, rets[0].Block()), d.cmpEdges(v, true)...)
+	case *ssa.Phi:
+		var live ssa.Value
+		var from *ssa.BasicBlock
+		n := 0
+		for i, e := range v.Edges {
+			if k, ok := e.(*ssa.Const); ok && k.Value != nil && k.Value.String() == "false" {
+				continue
+			}
+			n++
+			live, from = e, v.Block().Preds[i]
+		}
+		if n != 1 {
+			return nil
+		}
+		inner = d.branchOnly(cal, from)
+		// the edge from → phi block itself may be the taken side of a branch in `from`
+		if len(from.Succs) == 2 {
+			si := 0
+			if from.Succs[1] == v.Block() {
+				si = 1
+			}
+			inner = append(inner, d.branchFacts(from, si)...)
+		}
+		if bo, ok := live.(*ssa.BinOp); ok {
+			inner = append(inner, d.cmpEdges(bo, true)...)
+		} else if k, ok := live.(*ssa.Const); !ok || k.Value == nil || k.Value.String() != "true" {
+			return nil
+		}
+	default:
+		return nil
+	}
+	// callee node → caller node
+	type cn struct {
+		node string
+		off  int64
+	}
+	m := map[string]cn{"0": {"0", 0}}
+	for i, par := range cal.Params {
+		if i >= len(c.Call.Args) {
+			continue
+		}
+		if fields := structIntFields(par.Type()); fields != nil {
+			for _, fi := range fields {
+				if n, o, ok := d.argFieldNode(c.Call.Args[i], fi); ok {
+					m[fmt.Sprintf("%p.%d", par, fi)] = cn{n, o}
+				}
+			}
+			continue
+		}
+		if n, o, ok := d.node(c.Call.Args[i]); ok && n != "" {
+			m[fmt.Sprintf("%p", ssa.Value(par))] = cn{n, o}
+		}
+	}
+	var out []dbEdge
+	for _, e := range inner {
+		f, ok1 := m[e.from]
+		t, ok2 := m[e.to]
+		if !ok1 || !ok2 {
+			continue
+		}
+		// (t.node + t.off) − (f.node + f.off) ≤ w
+		out = append(out, dbEdge{f.node, t.node, e.w - t.off + f.off})
+	}
+	return out
+}
+
+// branchOnly: the facts of the dominating branches at block `at` of fn (no call-site facts).
+func (d *dbProver) branchOnly(fn *ssa.Function, at *ssa.BasicBlock) []dbEdge {
+	var edges []dbEdge
+	for _, blk := range fn.Blocks {
+		if blk == at || !blk.Dominates(at) || len(blk.Instrs) == 0 || len(blk.Succs) != 2 || blk.Succs[0] == blk.Succs[1] {
+			continue
+		}
+		for si := 0; si < 2; si++ {
+			if edgeRegion(blk, blk.Succs[si])[at] && !edgeRegion(blk, blk.Succs[1-si])[at] {
+				edges = append(edges, d.branchFacts(blk, si)...)
+			}
+		}
+	}
+	return edges
 }
 
 // branchFacts: constraints contributed by the branch of block blk towards successor index si.
@@ -1640,6 +1920,20 @@ func (d *dbProver) branchFacts(blk *ssa.BasicBlock, si int) []dbEdge {
 	iff, ok := blk.Instrs[len(blk.Instrs)-1].(*ssa.If)
 	if !ok {
 		return nil
+	}
+	// a validating predicate: if !span.within(n) { return … }
+	{
+		cond := iff.Cond
+		neg := false
+		if u, ok := cond.(*ssa.UnOp); ok && u.Op == token.NOT {
+			cond, neg = u.X, true
+		}
+		if c, ok := cond.(*ssa.Call); ok {
+			if (si == 0) != neg {
+				return d.predFacts(c)
+			}
+			return nil
+		}
 	}
 	bo, ok := iff.Cond.(*ssa.BinOp)
 	if !ok {
@@ -1761,6 +2055,14 @@ func (d *dbProver) entryFacts(fn *ssa.Function) []dbEdge {
 			var ans []an
 			for i, a := range c.Common().Args {
 				if i >= len(fn.Params) {
+					continue
+				}
+				if fields := structIntFields(fn.Params[i].Type()); fields != nil {
+					for _, fi := range fields {
+						if n, o, ok := d.argFieldNode(a, fi); ok && n != "" {
+							ans = append(ans, an{fmt.Sprintf("%p.%d", fn.Params[i], fi), n, o})
+						}
+					}
 					continue
 				}
 				if n, o, ok := d.node(a); ok && n != "" {
